@@ -252,8 +252,11 @@ PLANS = {
     },
     "C09": lambda tier: {
         "level": "exploration",
-        "stages": [main_stage(40, 300, tier)],
-        "require": ["split_tokens_checked", "unsplit_tokens_checked", "on_demand_splits_checked", "split_texts_where_normalised_length_differs", "on_demand_splits_into_nonempty_lists", "worlds_with_path_rewrite_plugins"],
+        "stages": [main_stage(40, 300, tier),
+                   # Morpheme.split and the per-call mode override of the Python binding: split and history kinds of C19's driver
+                   dict(main_stage(60, 240, tier, name="pysplit", shards=8), needs=["py", "cli"], extra=["--prop-alias", "C19", "--scale", "2"],
+                        kinds_re="^python_(split|history|mode_override)$")],
+        "require": ["split_tokens_checked", "unsplit_tokens_checked", "on_demand_splits_checked", "split_texts_where_normalised_length_differs", "on_demand_splits_into_nonempty_lists", "worlds_with_path_rewrite_plugins", "pysplit.py_splits_compared", "pysplit.py_split_out_checks"],
         "rule": "seeded worlds whose declared A/B units concatenate to the key (system->system, user->system, user->user references in "
                 "numeric, U-prefixed and inline notation; units of mixed byte width; 0-4 user dictionaries; random input-text / OOV stacks, no "
                 "path-rewrite plugins) x texts made of compound keys in plain / upper-case / full-width spelling plus filler; the same text "
@@ -266,8 +269,11 @@ PLANS = {
     },
     "C12": lambda tier: {
         "level": "exploration",
-        "stages": [main_stage(60, 300, tier)],
-        "require": ["rows_checked", "system_rows_compared_with_zero_layer_load", "morphemes_checked", "oov_morphemes_checked", "stacks_loaded_from_files", "morpheme_passes_with_a_field_subset",
+        "stages": [main_stage(60, 300, tier),
+                   # dictionary numbers, POS and references as the Python binding reports them (fields incl. the raw word info, lookup)
+                   dict(main_stage(60, 240, tier, name="pyrefs", shards=8), needs=["py", "cli"], extra=["--prop-alias", "C19", "--scale", "2"],
+                        kinds_re="^python_(field|lookup)$")],
+        "require": ["rows_checked", "system_rows_compared_with_zero_layer_load", "morphemes_checked", "oov_morphemes_checked", "stacks_loaded_from_files", "morpheme_passes_with_a_field_subset", "pyrefs.py_word_infos_compared",
                     "fifteenth_dictionary_rejected_with_error", "plugin_registered_pos_2"],
         "rule": "seeded stacks of 0, 1, 2, 3-13, 14 and 15 user dictionaries over a generated system dictionary; each layer compiled the way the "
                 "CLI does (against a plain load of the system dictionary), with POS that exist only in that layer, POS shared between layers "
